@@ -190,25 +190,7 @@ func main() {
 			return
 		}
 		bm := bi.GetBondMachine()
-		fmt.Printf("BM rsize=%d inputs=%d outputs=%d processors=%d\n", bm.Rsize, bm.Inputs, bm.Outputs, len(bm.Processors))
-		fmt.Printf("LINKS %v\n", bm.Links)
-		var ii, oo []string
-		for _, b := range bm.Internal_inputs {
-			ii = append(ii, b.String())
-		}
-		for _, b := range bm.Internal_outputs {
-			oo = append(oo, b.String())
-		}
-		fmt.Printf("IN %s\nOUT %s\n", strings.Join(ii, ","), strings.Join(oo, ","))
-		for i, d := range bm.Processors {
-			m := bm.Domains[d]
-			var ops []string
-			for _, op := range m.Op {
-				ops = append(ops, op.Op_get_name())
-			}
-			fmt.Printf("CP %d rsize=%d R=%d N=%d M=%d L=%d O=%d wordsize=%d maxword=%d opbits=%d ops=%s rom=%s name=%s\n", i, m.Rsize, m.R, m.N, m.M, m.L, m.O, m.WordSize, m.Max_word(), m.Opcodes_bits(),
-				strings.Join(ops, ","), strings.Join(m.Program.Slocs, ","), bi.CPNames[i])
-		}
+		fmt.Print(describeBM(bm, bi.CPNames))
 	case "bondgo":
 		// bondgo <source.go> <rsize> : run the real Go-subset compiler the way cmd/bondgo does (multi-processor mode)
 		// and describe the emitted machine; a watchdog reports a compiler that does not finish
@@ -421,8 +403,8 @@ func describeBM(bm *bondmachine.Bondmachine, names map[int]string) string {
 		for _, op := range m.Op {
 			ops = append(ops, op.Op_get_name())
 		}
-		fmt.Fprintf(&sb, "CP %d rsize=%d R=%d N=%d M=%d L=%d O=%d wordsize=%d maxword=%d opbits=%d ops=%s rom=%s name=%s\n", i, m.Rsize, m.R, m.N, m.M, m.L, m.O, m.WordSize, m.Max_word(), m.Opcodes_bits(),
-			strings.Join(ops, ","), strings.Join(m.Program.Slocs, ","), names[i])
+		fmt.Fprintf(&sb, "CP %d rsize=%d R=%d N=%d M=%d L=%d O=%d wordsize=%d maxword=%d opbits=%d ops=%s rom=%s name=%s data=%d mode=%s\n", i, m.Rsize, m.R, m.N, m.M, m.L, m.O, m.WordSize, m.Max_word(), m.Opcodes_bits(),
+			strings.Join(ops, ","), strings.Join(m.Program.Slocs, ","), names[i], len(m.Data.Vars), strings.Join(m.Modes, "+"))
 	}
 	return sb.String()
 }
